@@ -326,9 +326,7 @@ func (p *DeviceAppTimePeriodicityAnsPayload) UnmarshalBinary(data []byte) error 
 	if len(data) < p.Size() {
 		return fmt.Errorf("lorawan/applayer/clocksync: %d bytes are expected", p.Size())
 	}
-	if data[0]&1 != 0 {
-		p.Status.NotSupported = true
-	}
+	p.Status.NotSupported = data[0]&1 != 0
 	p.Time = binary.LittleEndian.Uint32(data[1:5])
 	return nil
 }
